@@ -263,6 +263,50 @@ def build(tier):
             bad.append(f"library code assigns .steps outside constructors/clone/load: {sorted(set(offenders) - set(allowed))}")
         return not bad, "budget guards, one steps.append and one test() per agent and generation, no library write to .steps" if not bad else "; ".join(bad)
     P.syntactic.append(("train-loops.generation-accounting", wiring))
+    def wiring_fitness():
+        """one fitness entry per agent and generation in the RETURNED history: pop_fitnesses starts empty and gets exactly one append per
+        generation (AST obligation over all six training functions)"""
+        bad = []
+        for mod in ("train_off_policy", "train_on_policy", "train_multi_agent_off_policy", "train_multi_agent_on_policy", "train_offline", "train_bandits"):
+            owner, m, f = front.find_function(TR + mod + "." + mod)
+            inits = [x for x in ast.walk(f) if isinstance(x, ast.Assign) and ast.unparse(x.targets[0]) == "pop_fitnesses"]
+            apps = [x for x in ast.walk(f) if isinstance(x, ast.Call) and ast.unparse(x.func) == "pop_fitnesses.append"]
+            if len(inits) != 1 or ast.unparse(inits[0].value) != "[]":
+                bad.append(f"{mod}: pop_fitnesses initialised as `{ast.unparse(inits[0].value) if inits else None}` (must be the empty list)")
+            wh = [x for x in ast.walk(f) if isinstance(x, ast.While)]
+            in_gen = [a for a in apps if any(a in list(ast.walk(w)) for w in wh)]
+            if len(apps) != 1 or len(in_gen) != 1 or ast.unparse(apps[0].args[0]) != "fitnesses":
+                bad.append(f"{mod}: not exactly one `pop_fitnesses.append(fitnesses)` inside the generation loop")
+            rets = [x for x in ast.walk(f) if isinstance(x, ast.Return) and x.value is not None]
+            if not rets or any(ast.unparse(r.value).strip("()") != "pop, pop_fitnesses" for r in rets):
+                bad.append(f"{mod}: a return statement does not return (pop, pop_fitnesses)")
+        return not bad, "pop_fitnesses = [] once, one append(fitnesses) per generation, returned with the population" if not bad else "; ".join(bad)
+    P.syntactic.append(("train-loops.fitness-history", wiring_fitness))
+
+    def wiring_swap():
+        """every environment reset inside the multi-agent rollouts is followed by the channels-first swap when swap_channels is set"""
+        bad = []
+        for mod in ("train_multi_agent_off_policy", "train_multi_agent_on_policy"):
+            owner, m, f = front.find_function(TR + mod + "." + mod)
+            for blk in [x for x in ast.walk(f) if isinstance(getattr(x, "body", None), list)]:
+                for fld in ("body", "orelse"):
+                    stmts = getattr(blk, fld, None) or []
+                    if not isinstance(stmts, list):
+                        continue
+                    for i, stx in enumerate(stmts):
+                        if isinstance(stx, ast.Assign) and ast.unparse(stx.value).startswith("env.reset(") and "obs" in ast.unparse(stx.targets[0]):
+                            rest = []
+                            for r in stmts[i + 1:]:
+                                rest.append(r)
+                                if "get_action(" in ast.unparse(r):      # the observation is consumed here at the latest
+                                    break
+                            ok = any(isinstance(r, ast.If) and ast.unparse(r.test) == "swap_channels" and "obs_channels_to_first" in ast.unparse(r)
+                                     and "get_action(" not in ast.unparse(r) for r in rest)
+                            if not ok:
+                                bad.append(f"{mod}:{stx.lineno}: `{ast.unparse(stx)}` is not followed by `if swap_channels: ... obs_channels_to_first`")
+        return not bad, "every `obs, info = env.reset()` of the multi-agent loops is followed by the conditional channel swap" if not bad else "; ".join(bad)
+    P.syntactic.append(("multi-agent-loops.swap-after-reset", wiring_swap))
+
     P.native.append(dict(name="counters", adapter="c20:counters", thorough_only=True, payload={"mode": "search"},
                          bound="train_off_policy with DQN on a counting vector env: (num_envs, evo_steps, max_steps) in 5 combinations incl. non-divisible ones"))
     P.trusted += ["counter slice: statements that do not assign steps / total_steps / .steps are dropped; env.step(...) is a ghost tick of num_envs steps",
